@@ -56,7 +56,7 @@ func genModes(t *Tracer, m *Meta, tier string, seed int64) {
 	quick := tier == "quick"
 	budgetU := 1600
 	if !quick {
-		budgetU = 40000
+		budgetU = 16000
 	}
 	for ui, u := range universes {
 		strs := u.Strings()
